@@ -41,6 +41,7 @@ theorem generated_substream_component_and_audit :
 
 
 
+
 -- BEGIN PINS (written by bin/mkpins; do not edit by hand)
 /-- the Go functions this property's model and obligations were written against have exactly the
 pinned skeletons (SHA-256 prefix of the atom list) -/
@@ -48,7 +49,7 @@ theorem pinned_skeletons_c18 :
     pinsOk
     [("Components.#decls", "84eddb1c2309452c"),
      ("Components.StreamToSubStream_Run", "3877054697bb0416"),
-     ("Scipipe.#decls", "7633eb8a74616d59"),
+     ("Scipipe.#decls", "08e57e98702ecd70"),
      ("Scipipe.NewTask", "95298f03c320cb96"),
      ("Scipipe.Process_initPortsFromCmdPattern", "4f7c6ade86c29af6"),
      ("Scipipe.Task_TempDir", "6d565a2ddd3d0eb2"),
